@@ -5,21 +5,27 @@ Theorems about the model `Earverif.Validate.selectItems` (a transliteration of
 `select_rendering_items` with C07's model of the pack allocator, see Model/Validate.lean);
 the model is tied to /repo by harness/c14.py on every run.
 
-`select_no_internal_partial` is PARTIAL only because these are outside the model: message formatting, attrs
-type validators (and with them cross-class references), `RecursionError` (graph walks use fuel = number of
-elements; the loop validations run first), rtime/duration and the HOA/absoluteDistance parameters that generated
-documents leave unset.  Inside the model: all of `validate_structure` incl. the Matrix branch and
-`_validate_avs_references`, the allocator's packs (`wrap_matrix_pack`), `select_pack_mapping` with the pack
-allocator itself (C07's model `Earverif.PackAlloc`, called on the problem built from the document — no oracle),
-`raise_error` diagnostics, Regular/Matrix `output_channel_allocation`, `_get_rendering_items`.
-Structural hypotheses (always true of parsed documents, like dangling references being impossible):
-`wellScoped` and `avsOwned` (an alternativeValueSet element is the child of one audioObject).
+Inside the model since round 7: the FAILURE PATHS' OWN OPERATIONS.  An ADM error carries the structured diagnostic
+`Msg` (every `.id`, `.type.name`, `len()` the message reads, in order); what can raise while the message is built is
+a separate step of the raising function: `input_channel.id` / `acf.id` / `apf.id` of a possibly-`None` reference, the
+`.index(...)` of `loop_exception`, the two `max(...)` of `diamond_exception`, `path[0]` / `path[-1]` of
+`get_path_param`, `state.audioObject.id` of `raise_error`.  `select_no_internal_partial` therefore also says that
+building a diagnostic never ends in a non-ADM exception.  Also inside now: block `rtime/duration` (element
+validator, `_validate_matrix_channel`, HOA `get_single_param`), HOA `nfcRefDist` with its `0.0 → None` rule, pack
+`absoluteDistance` in `_get_extra_data`, the per-channel `[block_format] = ...` getters and `_get_importance`'s
+`min(...)`.
 
-`resolved_iff_unique_valid_partial` states the second sentence of the property with C07's `accept_iff_unique`:
-rendering only if exactly one valid assignment exists, Conflicting / Ambiguous `AdmFormatRefError` otherwise.
-PARTIAL: C07's well-formedness `WF` of the built problem is derived from validation (`allocProblem_wf`) except
-"no allocation pack without channels", which stays a hypothesis (`noEmptyPacks`: the specification read literally
-admits unboundedly many / spurious allocations using an empty pack, which the code never allocates).
+`select_no_internal_partial` stays PARTIAL because these are outside the model: attrs type validators (and with
+them cross-class references and element ids that are `None`: `min(audioProgrammes, key=id)` compares ids),
+`RecursionError` (graph walks use fuel = number of elements; the loop validations run first) and `str()` of the
+raised exception.  Structural hypotheses (always true of parsed documents, like dangling references being
+impossible): `wellScoped` and `avsOwned` (an alternativeValueSet element is the child of one audioObject).
+
+`resolved_iff_unique_valid` states the second sentence of the property with C07's `accept_iff_unique`, now without
+the "no allocation pack without channels" hypothesis: `_allocate_packs_impl` never allocates such a pack
+(`PackAlloc.allocatePacks_dropEmpty`), so the allocator decides the problem with those packs removed
+(`effProblem`), whose well-formedness follows from validation alone.  `empty_pack_outcome` is the exact outcome
+for an audioObject that references such a pack: the Conflicting ADM error.
 -/
 import Earverif.Proofs.C14Alloc
 namespace Earverif.Validate
@@ -32,9 +38,10 @@ def MultitreeSound (d : Doc) : Prop := validateMultitree d = .ok () → uniquePa
 every channel below a pack is yielded once by `pack_format_channels` and lies on exactly one pack path -/
 theorem multitreeSound_holds (d : Doc) : MultitreeSound d := multitree_sound d
 
-/-- After `validate_structure` succeeded every later unpacking / dereference / assert / `type_of` is safe: item
-selection never ends in a non-ADM exception — on every well-scoped document graph, Matrix packs included, for
-every programme / complementary-object selection and every outcome of the allocator. -/
+/-- After `validate_structure` succeeded every later unpacking / dereference / assert / `type_of` / `min()` is safe,
+and so is every read made while a diagnostic message is built: item selection never ends in a non-ADM exception —
+on every well-scoped document graph, Matrix packs included, for every programme / complementary-object selection
+and every outcome of the allocator. -/
 theorem select_no_internal_partial (d : Doc) (prog : Option Nat) (sel : List Nat)
     (hw : d.wellScoped = true) (hown : d.avsOwned = true)
     (hprog : ∀ p, prog = some p → p < d.programmes.length) :
@@ -59,7 +66,20 @@ theorem select_no_internal_partial (d : Doc) (prog : Option Nat) (sel : List Nat
         · rename_i states hstates
           exact sumE_noInt (fun _ st hst => processState_noInt hw hs (patterns_ok hs hpats)
             (multitree_sound d hs.multitree) st
-            (avsSelected_noInt hs hown (selectStates_ok hstates st (List.mem_filter.mp hst).1))) 0 k hk
+            (avsSelected_noInt hs hown (selectStates_ok hstates st (List.mem_filter.mp hst).1))
+            (selectStates_objpath_ne hstates st (List.mem_filter.mp hst).1)) 0 k hk
+
+/-- the caller-side reading: the outcome is items or an ADM error of some kind -/
+theorem select_outcome_partial (d : Doc) (prog : Option Nat) (sel : List Nat)
+    (hw : d.wellScoped = true) (hown : d.avsOwned = true)
+    (hprog : ∀ p, prog = some p → p < d.programmes.length) :
+    (∃ n, outcome (selectItems d prog sel) = .items n) ∨ (∃ a, outcome (selectItems d prog sel) = .adm a) := by
+  cases h : selectItems d prog sel with
+  | ok n => exact Or.inl ⟨n, rfl⟩
+  | error e =>
+    cases e with
+    | adm a m => exact Or.inr ⟨a, rfl⟩
+    | internal k => exact absurd h (select_no_internal_partial d prog sel hw hown hprog k)
 
 /-- The allocator's packs can always be built after validation: `matrix.type_of`, `[encode_pack] = ...` and
 `encode_pack.inputPackFormat` in `wrap_matrix_pack` are total, whatever the declaration order of the packs. -/
@@ -69,9 +89,20 @@ theorem allocator_init_no_internal (d : Doc) (hv : validateStructure d = .ok ())
 /-- `validate_structure` alone raises only ADM errors, on every document graph (no hypothesis at all), Matrix
 branch and `_validate_avs_references` included: every `matrix.type_of`, `[encode_apf] = ...`,
 `[block_format] = ...` and `assert obj is not None` in it is preceded by its guard, in any declaration order of
-the packs (`_partial` only for what is outside the model: attrs validators, messages, unset parameters). -/
+the packs, and every diagnostic it formats is built without raising (`_partial` only for what is outside the
+model: attrs validators). -/
 theorem validate_no_internal_partial (d : Doc) :
     ∀ k, validateStructure d ≠ .error (.internal k) := validateStructure_noInt d
+
+/-- the two diagnostics of `_validate_pack_channel_multitree` (`loop_exception`: `.index(...)`; `diamond_exception`:
+two `max(...)` over generators, two `type_names[...]` lookups) are total on every document graph: both paths start
+at the root of the current top-level DFS -/
+theorem multitree_diagnostics_total (d : Doc) : ∀ k, validateMultitree d ≠ .error (.internal k) :=
+  validateMultitree_noInt d
+
+/-- `get_path_param`'s message reads `path[0].id` and `path[-1].id`: total whenever the conflict branch is reached -/
+theorem path_param_message_total (n : PName) (ids : List Acc) (vals : List (Option Nat)) (h : ids.length = vals.length) :
+    ∀ k, pathParam n ids vals ≠ .error (.internal k) := pathParam_noInt n h
 
 /-- `_get_alternativeValueSet`'s `assert ... "more than one active alternativeValueSet"` cannot fail for a state
 yielded by `_select_programme_content_objects` once `_validate_avs_references` accepted the document. -/
@@ -80,86 +111,146 @@ theorem avs_assert_total (d : Doc) (prog : Option Nat) (states : List State)
     ∀ st ∈ states, ∀ k, avsSelected d st ≠ .error (.internal k) :=
   fun st h => avsSelected_noInt (validateStructure_ok hv) hown (selectStates_ok hst st h)
 
-/-- hypothesis of `resolved_iff_unique_valid_partial`: every allocation pack has a channel -/
-def noEmptyPacks (pats : List Pattern) : Prop := ∀ pat ∈ pats, pat.channels ≠ []
+/-- the allocation problem the allocator effectively decides for a state: the problem built from the document
+without the allocation packs that have no channels (the real allocator never allocates those:
+`PackAlloc.allocatePacks_dropEmpty`) -/
+def effProblem (d : Doc) (pats : List Pattern) (st : State) (cfs : List (Option Nat)) : PackAlloc.Problem :=
+  PackAlloc.dropEmpty (stateProblem d pats st cfs)
+
+/-- valid assignments of `effProblem` = assignments meeting the `allocate_packs` docstring that use no allocation
+pack without channels -/
+theorem effProblem_valid_iff (d : Doc) (pats : List Pattern) (st : State) (cfs : List (Option Nat)) (sol : PackAlloc.Sol) :
+    PackAlloc.Valid (effProblem d pats st cfs) sol ↔
+      PackAlloc.Valid (stateProblem d pats st cfs) sol ∧ ∀ a ∈ sol, a.pack.channels ≠ [] :=
+  valid_dropEmpty_iff _ _
 
 /-- "Inconsistent or ambiguous format references are always rejected rather than resolved arbitrarily", as a
 theorem about the document: for a state of a validated document whose selected tracks passed
-`validate_selected_audioTrackUID`, with `prob` the `allocate_packs` problem built from the document and `Valid`
-C07's reading of the `allocate_packs` docstring,
+`validate_selected_audioTrackUID`, with `effProblem` the `allocate_packs` problem built from the document (minus
+channel-less allocation packs) and `Valid` C07's reading of the `allocate_packs` docstring,
 * no valid assignment            ⇒ the "Conflicting format references" ADM error;
 * two inequivalent valid ones    ⇒ the "Ambiguous format references" ADM error;
 * exactly one (up to `≈`)        ⇔ the allocator accepts one and the outcome is its rendering;
-* items are returned             ⇒ exactly one valid assignment exists. -/
-theorem resolved_iff_unique_valid_partial (d : Doc) (pats : List Pattern) (st : State) (cfs : List (Option Nat))
+* items are returned             ⇒ exactly one valid assignment exists.
+No hypothesis on the allocation packs is left (round 7). -/
+theorem resolved_iff_unique_valid (d : Doc) (pats : List Pattern) (st : State) (cfs : List (Option Nat))
     (hw : d.wellScoped = true) (hv : validateStructure d = .ok ()) (hp : patterns d = .ok pats)
-    (hne : noEmptyPacks pats)
     (htv : forE (selectedOf d st).2.1 (validateSelectedTrack d) = .ok ())
     (hcf : mapE (selectedOf d st).2.1 (channelForTrack d) = .ok cfs) :
-    ((¬ ∃ sol, PackAlloc.Valid (stateProblem d pats st cfs) sol) →
-        processState d pats st = .error (.adm .conflicting)) ∧
-    ((∃ s1 s2, PackAlloc.Valid (stateProblem d pats st cfs) s1 ∧ PackAlloc.Valid (stateProblem d pats st cfs) s2 ∧
-        ¬ PackAlloc.SolEquiv s1 s2) → processState d pats st = .error (.adm .ambiguous)) ∧
-    ((∃ s, PackAlloc.Valid (stateProblem d pats st cfs) s ∧
-        ∀ sol, PackAlloc.Valid (stateProblem d pats st cfs) sol → PackAlloc.SolEquiv s sol) ↔
+    ((¬ ∃ sol, PackAlloc.Valid (effProblem d pats st cfs) sol) →
+        ∃ m, processState d pats st = .error (.adm .conflicting m)) ∧
+    ((∃ s1 s2, PackAlloc.Valid (effProblem d pats st cfs) s1 ∧ PackAlloc.Valid (effProblem d pats st cfs) s2 ∧
+        ¬ PackAlloc.SolEquiv s1 s2) → ∃ m, processState d pats st = .error (.adm .ambiguous m)) ∧
+    ((∃ s, PackAlloc.Valid (effProblem d pats st cfs) s ∧
+        ∀ sol, PackAlloc.Valid (effProblem d pats st cfs) sol → PackAlloc.SolEquiv s sol) ↔
       ∃ s, PackAlloc.selectPackMapping (stateProblem d pats st cfs) = .accepted s ∧
         processState d pats st = renderSolution d pats st s) ∧
     (∀ n, processState d pats st = .ok n →
-      ∃ s, PackAlloc.Valid (stateProblem d pats st cfs) s ∧
-        ∀ sol, PackAlloc.Valid (stateProblem d pats st cfs) sol → PackAlloc.SolEquiv s sol) := by
+      ∃ s, PackAlloc.Valid (effProblem d pats st cfs) s ∧
+        ∀ sol, PackAlloc.Valid (effProblem d pats st cfs) sol → PackAlloc.SolEquiv s sol) := by
   have hs := validateStructure_ok hv
-  have hwf : PackAlloc.WF (stateProblem d pats st cfs) := allocProblem_wf hs (patterns_ok hs hp) hne _ _ _ _
+  have hwf : PackAlloc.WF (effProblem d pats st cfs) := allocProblem_wf_dropEmpty hs (patterns_ok hs hp) _ _ _ _
   obtain ⟨hacc, hconf, hamb⟩ := PackAlloc.accept_iff_unique _ hwf
+  have hsame : PackAlloc.selectPackMapping (effProblem d pats st cfs) =
+      PackAlloc.selectPackMapping (stateProblem d pats st cfs) := PackAlloc.selectPackMapping_dropEmpty _
+  rw [hsame] at hacc hconf hamb
   have hdec := processState_decided (pats := pats) hw hs htv hcf
   refine ⟨?_, ?_, ?_, ?_⟩
   · intro h
-    rw [hdec, hconf.mpr h]
+    rw [hconf.mpr h] at hdec; exact hdec
   · intro h
-    rw [hdec, hamb.mpr h]
+    rw [hamb.mpr h] at hdec; exact hdec
   · rw [← hacc]
     constructor
     · rintro ⟨s, hsel⟩
-      exact ⟨s, hsel, by rw [hdec, hsel]⟩
+      rw [hsel] at hdec
+      exact ⟨s, hsel, hdec⟩
     · rintro ⟨s, hsel, _⟩
       exact ⟨s, hsel⟩
   · intro n hn
     rw [← hacc]
-    rw [hdec] at hn
     cases hsel : PackAlloc.selectPackMapping (stateProblem d pats st cfs) with
-    | conflicting => rw [hsel] at hn; cases hn
-    | ambiguous => rw [hsel] at hn; cases hn
+    | conflicting => rw [hsel] at hdec; obtain ⟨m, hm⟩ := hdec; rw [hm] at hn; cases hn
+    | ambiguous => rw [hsel] at hdec; obtain ⟨m, hm⟩ := hdec; rw [hm] at hn; cases hn
     | accepted s => exact ⟨s, rfl⟩
 
 /-- No allocation satisfies the `allocate_packs` requirements ⇒ the "Conflicting" ADM error, never items. -/
 theorem conflicting_is_error (d : Doc) (pats : List Pattern) (st : State) (cfs : List (Option Nat))
     (hw : d.wellScoped = true) (hv : validateStructure d = .ok ()) (hp : patterns d = .ok pats)
-    (hne : noEmptyPacks pats)
     (htv : forE (selectedOf d st).2.1 (validateSelectedTrack d) = .ok ())
     (hcf : mapE (selectedOf d st).2.1 (channelForTrack d) = .ok cfs)
-    (h : ¬ ∃ sol, PackAlloc.Valid (stateProblem d pats st cfs) sol) :
-    processState d pats st = .error (.adm .conflicting) :=
-  (resolved_iff_unique_valid_partial d pats st cfs hw hv hp hne htv hcf).1 h
+    (h : ¬ ∃ sol, PackAlloc.Valid (effProblem d pats st cfs) sol) :
+    ∃ m, processState d pats st = .error (.adm .conflicting m) :=
+  (resolved_iff_unique_valid d pats st cfs hw hv hp htv hcf).1 h
 
 /-- Two inequivalent allocations satisfy the requirements ⇒ the "Ambiguous" ADM error, never items. -/
 theorem ambiguous_is_error (d : Doc) (pats : List Pattern) (st : State) (cfs : List (Option Nat))
     (hw : d.wellScoped = true) (hv : validateStructure d = .ok ()) (hp : patterns d = .ok pats)
-    (hne : noEmptyPacks pats)
     (htv : forE (selectedOf d st).2.1 (validateSelectedTrack d) = .ok ())
     (hcf : mapE (selectedOf d st).2.1 (channelForTrack d) = .ok cfs)
-    (h : ∃ s1 s2, PackAlloc.Valid (stateProblem d pats st cfs) s1 ∧ PackAlloc.Valid (stateProblem d pats st cfs) s2 ∧
+    (h : ∃ s1 s2, PackAlloc.Valid (effProblem d pats st cfs) s1 ∧ PackAlloc.Valid (effProblem d pats st cfs) s2 ∧
       ¬ PackAlloc.SolEquiv s1 s2) :
-    processState d pats st = .error (.adm .ambiguous) :=
-  (resolved_iff_unique_valid_partial d pats st cfs hw hv hp hne htv hcf).2.1 h
+    ∃ m, processState d pats st = .error (.adm .ambiguous m) :=
+  (resolved_iff_unique_valid d pats st cfs hw hv hp htv hcf).2.1 h
 
-/-- `raise_error` on validated tracks raises exactly the ADM error asked for (the diagnostics return normally) -/
-theorem raiseError_adm (d : Doc) (packs : Option (List Nat)) (tracks : List Nat) (n : Nat) (a : AdmKind)
-    (h : ∀ t ∈ tracks, TrackOk d t) : raiseError d packs tracks n a = .error (.adm a) :=
+/-- What the code does with an audioPackFormat that has no channels, place by place:
+* validation: a HOA one is an ADM error (`hoa_empty_pack_is_adm`, `hoaParams_ok_nonempty`), any other passes;
+* allocation-pack construction: `wrap_non_matrix_pack` builds an allocation pack with `channels = []`
+  (`patterns`; a matrix pack gives up to three allocation packs, each possibly empty);
+* allocator: never allocated (`PackAlloc.allocatePacks_dropEmpty`).
+Exact outcome for a state whose audioObject references a pack `p` all of whose allocation packs are empty: the
+"Conflicting format references" ADM error (whatever else the object references), never items. -/
+theorem empty_pack_outcome (d : Doc) (pats : List Pattern) (st : State) (cfs : List (Option Nat))
+    (hw : d.wellScoped = true) (hv : validateStructure d = .ok ()) (hp : patterns d = .ok pats)
+    (htv : forE (selectedOf d st).2.1 (validateSelectedTrack d) = .ok ())
+    (hcf : mapE (selectedOf d st).2.1 (channelForTrack d) = .ok cfs)
+    {refs : List Nat} (hrefs : (selectedOf d st).1 = some refs) {p : Nat} (hpr : p ∈ refs)
+    (hempty : ∀ pat ∈ pats, pat.root = p → pat.channels = []) :
+    ∃ m, processState d pats st = .error (.adm .conflicting m) := by
+  refine conflicting_is_error d pats st cfs hw hv hp htv hcf ?_
+  rintro ⟨sol, hsol⟩
+  obtain ⟨hval, hne⟩ := (effProblem_valid_iff d pats st cfs sol).mp hsol
+  have hr := hval.refs
+  have hpr' : (stateProblem d pats st cfs).packRefs = some refs := hrefs
+  rw [hpr'] at hr
+  have hmem : p ∈ sol.map (·.pack.root) := (List.Perm.mem_iff hr).mpr hpr
+  obtain ⟨a, ha, hroot⟩ := List.mem_map.mp hmem
+  obtain ⟨hpm, hrt, hch⟩ := allocProblem_pack_mem (hval.packs_mem a ha)
+  have hc := hempty _ hpm (by rw [← hrt]; exact hroot)
+  refine hne a ha ?_
+  rw [hch]
+  simp only [Pattern.allocChannels, hc, List.zipWith_nil_left]
+
+/-- the common case of `empty_pack_outcome`: a non-Matrix pack that reaches no channel (directly or through
+sub-packs) has exactly one allocation pack, and that one is empty -/
+theorem empty_pack_outcome_regular (d : Doc) (pats : List Pattern) (st : State) (cfs : List (Option Nat))
+    (hw : d.wellScoped = true) (hv : validateStructure d = .ok ()) (hp : patterns d = .ok pats)
+    (htv : forE (selectedOf d st).2.1 (validateSelectedTrack d) = .ok ())
+    (hcf : mapE (selectedOf d st).2.1 (channelForTrack d) = .ok cfs)
+    {refs : List Nat} (hrefs : (selectedOf d st).1 = some refs) {p : Nat} (hpr : p ∈ refs)
+    (hty : (d.pack p).type ≠ .matrix) (hnc : packChannels d p = []) :
+    ∃ m, processState d pats st = .error (.adm .conflicting m) := by
+  refine empty_pack_outcome d pats st cfs hw hv hp htv hcf hrefs hpr ?_
+  intro pat hpat hroot
+  cases patterns_ok (validateStructure_ok hv) hp pat hpat with
+  | regular pi _ _ => simp only at hroot; subst hroot; exact hnc
+  | matrixInput pi ip t hm _ _ _ => simp only at hroot; subst hroot; exact absurd hm hty
+  | matrixPre pi t hm _ _ => simp only at hroot; subst hroot; exact absurd hm hty
+  | matrixEncDec pi e ii hm _ _ _ => simp only at hroot; subst hroot; exact absurd hm hty
+
+/-- `raise_error` on validated tracks raises exactly the ADM error asked for, carrying the context and the reasons
+that `possible_reference_errors` returned (the diagnostics return normally) -/
+theorem raiseError_adm (d : Doc) (ctx : Acc) (packs : Option (List Nat)) (tracks : List Nat) (n : Nat) (a : AdmKind)
+    (h : ∀ t ∈ tracks, TrackOk d t) :
+    ∃ reasons, possibleReferenceErrors d packs tracks n = .ok reasons ∧
+      raiseError d ctx packs tracks n a = .error (.adm a (ctx :: reasons)) :=
   raiseError_eq a h
 
 /-- `possible_reference_errors` yields no non-ADM exception for either referencing style, on tracks that
 passed `validate_selected_audioTrackUID` in a validated document (`TrackOk`; for a v1-style track the
 trackFormat → streamFormat → channelFormat chain is complete, for a v2-style track the direct
-channelFormat reference is present). This is the obligation the tree before commit 0d9f6b4 fails. -/
+channelFormat reference is present): `audioPackFormat.encodePackFormats`, `acf.id` and `apf.id` in its reasons are
+never read from `None`. This is the obligation the tree before commit 0d9f6b4 fails. -/
 theorem diagnostics_total (d : Doc) (packs : Option (List Nat)) (tracks : List Nat) (n : Nat)
     (h : ∀ t ∈ tracks, TrackOk d t) :
     ∀ k, possibleReferenceErrors d packs tracks n ≠ .error (.internal k) :=
@@ -198,10 +289,10 @@ example : selectItems docV2 none [] = .ok 1 := by decide
 example : selectItems docV1 (some 0) [] = .ok 1 := by decide
 -- conflicting / ambiguous references, both styles: the ADM error, via total diagnostics
 /-- the object references no pack: no allocation exists -/
-example : selectItems { docV1 with objects := [{ packs := [], tracks := [some 0] }] } none []
-    = .error (.adm .conflicting) := by decide
-example : selectItems { docV2 with objects := [{ packs := [], tracks := [some 0] }] } none []
-    = .error (.adm .conflicting) := by decide
+example : outcome (selectItems { docV1 with objects := [{ packs := [], tracks := [some 0] }] } none [])
+      = .adm .conflicting := by decide
+example : outcome (selectItems { docV2 with objects := [{ packs := [], tracks := [some 0] }] } none [])
+      = .adm .conflicting := by decide
 
 /-- CHNA-only documents (no programme, no object) with a nested pack `outer ⊃ inner ∋ channel 0` and a track
 referencing `inner`: the track fits `inner` on its own and `outer` — two allocations -/
@@ -213,28 +304,49 @@ def docAmbV2 : Doc := {
 def docAmbV1 : Doc := { docAmbV2 with
   streams := [{ channel := some 0 }], trackFormats := [{ stream := some 0 }]
   trackUIDs := [{ trackIndex := some 1, pack := some 0, trackFormat := some 0 }] }
-example : selectItems docAmbV1 none [] = .error (.adm .ambiguous) := by decide
-example : selectItems docAmbV2 none [] = .error (.adm .ambiguous) := by decide
+example : outcome (selectItems docAmbV1 none [])
+      = .adm .ambiguous := by decide
+example : outcome (selectItems docAmbV2 none [])
+      = .adm .ambiguous := by decide
 -- one faulty document per modelled fault class
-example : selectItems { docV1 with trackFormats := [{ stream := none }] } none [] = .error (.adm .tfnostream) := by decide
-example : selectItems { docV1 with streams := [{}] } none [] = .error (.adm .streamnone) := by decide
-example : selectItems { docV1 with streams := [{ channel := some 0, pack := some 0 }] } none [] = .error (.adm .streamboth) := by decide
-example : selectItems { docV1 with streams := [{ pack := some 0 }] } none [] = .error (.adm .streamnochannel) := by decide
-example : selectItems { docV1 with objects := [{ packs := [0], tracks := [some 0], objects := [0] }] } none [] = .error (.adm .objloop) := by decide
-example : selectItems { docV1 with objects := [{ objects := [1], params := true }, { packs := [0], tracks := [some 0] }] } none [] = .error (.adm .leafparam) := by decide
-example : selectItems { docV1 with channels := [{ type := .directSpeakers, blocks := [objBlock] }] } none [] = .error (.adm .packchtype) := by decide
-example : selectItems { docV1 with packs := [{ type := .objects, channels := [0], packs := [1] }, { type := .directSpeakers }] } none [] = .error (.adm .subpacktype) := by decide
-example : selectItems { docV1 with packs := [{ type := .objects, channels := [0], packs := [0] }] } none [] = .error (.adm .packloop) := by decide
-example : selectItems { docV1 with packs := [{ type := .objects, channels := [0, 0] }] } none [] = .error (.adm .diamond) := by decide
-example : selectItems { docV1 with channels := [{ type := .objects, freq := true, blocks := [objBlock] }] } none [] = .error (.adm .objfreq) := by decide
-example : selectItems { docV1 with channels := [{ type := .objects, blocks := [{ cartMismatch := true }] }] } none [] = .error (.adm .cartesian) := by decide
-example : selectItems { docV1 with packs := [{ type := .objects, channels := [0], input := some 0 }] } none [] = .error (.adm .nmxinput) := by decide
-example : selectItems { docV1 with trackUIDs := [{ trackIndex := some 1, pack := some 0, trackFormat := some 0, channel := some 0 }] } none [] = .error (.adm .v2ref) := by decide
-example : selectItems { docV2 with trackUIDs := [{ trackIndex := some 1, pack := some 0 }] } none [] = .error (.adm .tracknone) := by decide
-example : selectItems { docV2 with trackUIDs := [{ trackIndex := some 1, pack := some 0, channel := some 0, trackFormat := some 0 }], trackFormats := [{ stream := some 0 }], streams := [{ channel := some 0 }] } none [] = .error (.adm .trackboth) := by decide
-example : selectItems { docV2 with trackUIDs := [{ pack := some 0, channel := some 0 }] } none [] = .error (.adm .noindex) := by decide
-example : selectItems { docV2 with trackUIDs := [{ trackIndex := some 1, channel := some 0 }] } none [] = .error (.adm .nopack) := by decide
-example : selectItems docV2 none [0] = .error (.adm .compnotgroup) := by decide
+example : outcome (selectItems { docV1 with trackFormats := [{ stream := none }] } none [])
+      = .adm .tfnostream := by decide
+example : outcome (selectItems { docV1 with streams := [{}] } none [])
+      = .adm .streamnone := by decide
+example : outcome (selectItems { docV1 with streams := [{ channel := some 0, pack := some 0 }] } none [])
+      = .adm .streamboth := by decide
+example : outcome (selectItems { docV1 with streams := [{ pack := some 0 }] } none [])
+      = .adm .streamnochannel := by decide
+example : outcome (selectItems { docV1 with objects := [{ packs := [0], tracks := [some 0], objects := [0] }] } none [])
+      = .adm .objloop := by decide
+example : outcome (selectItems { docV1 with objects := [{ objects := [1], pgain := true }, { packs := [0], tracks := [some 0] }] } none [])
+      = .adm .leafgain := by decide
+example : outcome (selectItems { docV1 with channels := [{ type := .directSpeakers, blocks := [objBlock] }] } none [])
+      = .adm .packchtype := by decide
+example : outcome (selectItems { docV1 with packs := [{ type := .objects, channels := [0], packs := [1] }, { type := .directSpeakers }] } none [])
+      = .adm .subpacktype := by decide
+example : outcome (selectItems { docV1 with packs := [{ type := .objects, channels := [0], packs := [0] }] } none [])
+      = .adm .packloop := by decide
+example : outcome (selectItems { docV1 with packs := [{ type := .objects, channels := [0, 0] }] } none [])
+      = .adm .diamond := by decide
+example : outcome (selectItems { docV1 with channels := [{ type := .objects, freq := true, blocks := [objBlock] }] } none [])
+      = .adm .objfreq := by decide
+example : outcome (selectItems { docV1 with channels := [{ type := .objects, blocks := [{ cartMismatch := true }] }] } none [])
+      = .adm .cartesian := by decide
+example : outcome (selectItems { docV1 with packs := [{ type := .objects, channels := [0], input := some 0 }] } none [])
+      = .adm .nmxinput := by decide
+example : outcome (selectItems { docV1 with trackUIDs := [{ trackIndex := some 1, pack := some 0, trackFormat := some 0, channel := some 0 }] } none [])
+      = .adm .v2ref := by decide
+example : outcome (selectItems { docV2 with trackUIDs := [{ trackIndex := some 1, pack := some 0 }] } none [])
+      = .adm .tracknone := by decide
+example : outcome (selectItems { docV2 with trackUIDs := [{ trackIndex := some 1, pack := some 0, channel := some 0, trackFormat := some 0 }], trackFormats := [{ stream := some 0 }], streams := [{ channel := some 0 }] } none [])
+      = .adm .trackboth := by decide
+example : outcome (selectItems { docV2 with trackUIDs := [{ pack := some 0, channel := some 0 }] } none [])
+      = .adm .noindex := by decide
+example : outcome (selectItems { docV2 with trackUIDs := [{ trackIndex := some 1, channel := some 0 }] } none [])
+      = .adm .nopack := by decide
+example : outcome (selectItems docV2 none [0])
+      = .adm .compnotgroup := by decide
 
 /-- first-order-less HOA document: one HOA pack with one channel -/
 def docHoa : Doc := {
@@ -246,31 +358,39 @@ def docHoa : Doc := {
   trackUIDs := [{ trackIndex := some 1, pack := some 0, channel := some 0 }] }
 
 example : selectItems docHoa none [] = .ok 1 := by decide
-example : selectItems { docHoa with channels := [{ type := .hoa, blocks := [] }] } none [] = .error (.adm .hoablocks) := by decide
-example : selectItems { docHoa with channels := [{ type := .hoa, blocks := [{ degree := some 0 }] }] } none [] = .error (.adm .hoaorder) := by decide
+example : outcome (selectItems { docHoa with channels := [{ type := .hoa, blocks := [] }] } none [])
+      = .adm .hoablocks := by decide
+example : outcome (selectItems { docHoa with channels := [{ type := .hoa, blocks := [{ degree := some 0 }] }] } none [])
+      = .adm .hoaorder := by decide
 
 /-- former finding F1 (fixed in 03146b0): a HOA pack that references no channel is rejected with an ADM error
 (before the fix `get_single_param` indexed `pack_paths_channels[0]`: IndexError) -/
 theorem hoa_empty_pack_is_adm :
-    selectItems { docHoa with packs := [{ type := .hoa, channels := [] }] } none []
-      = .error (.adm .hoaempty) := by decide
+    outcome (selectItems { docHoa with packs := [{ type := .hoa, channels := [] }] } none [])
+      = .adm .hoaempty := by decide
 
 /-- former finding F4 (fixed in 76cae51): a consistent Binaural document is rejected with an ADM error
 (before the fix `_get_rendering_items` raised NotImplementedError) -/
 theorem unsupported_type_is_adm :
-    selectItems { docV2 with packs := [{ type := .binaural, channels := [0] }],
-                             channels := [{ type := .binaural, blocks := [objBlock] }] } none []
-      = .error (.adm .unsupportedtype) := by decide
+    outcome (selectItems { docV2 with packs := [{ type := .binaural, channels := [0] }], channels := [{ type := .binaural, blocks := [objBlock] }] } none [])
+      = .adm .unsupportedtype := by decide
 
 /-! ### the allocation problem -/
 
-/-- non-vacuity of `noEmptyPacks` (and with it of `resolved_iff_unique_valid_partial`) on the example documents -/
-example : (match patterns docV1 with
-    | .ok pats => decide (∀ pat ∈ pats, pat.channels ≠ [])
-    | .error _ => false) = true := by decide
-example : (match patterns docAmbV2 with
-    | .ok pats => decide (∀ pat ∈ pats, pat.channels ≠ [])
-    | .error _ => false) = true := by decide
+/-- the one state of `docV1` (programme 0, content 0, object path [0]) -/
+def stV1 : State := ⟨some 0, some 0, some [0]⟩
+
+/-- non-vacuity of the hypotheses of `resolved_iff_unique_valid` / `conflicting_is_error` / `ambiguous_is_error`:
+they hold for the state of the valid example document (whose rendering is one item), and for the ambiguous
+CHNA-only document -/
+example : docV1.wellScoped = true ∧ validateStructure docV1 = .ok () ∧
+    (match patterns docV1 with | .ok pats => pats.length | .error _ => 0) = 1 ∧
+    forE (selectedOf docV1 stV1).2.1 (validateSelectedTrack docV1) = .ok () ∧
+    mapE (selectedOf docV1 stV1).2.1 (channelForTrack docV1) = .ok [some 0] := by decide
+example : docAmbV2.wellScoped = true ∧ validateStructure docAmbV2 = .ok () ∧
+    (match patterns docAmbV2 with | .ok pats => pats.length | .error _ => 0) = 2 ∧
+    forE (selectedOf docAmbV2 ⟨none, none, none⟩).2.1 (validateSelectedTrack docAmbV2) = .ok () ∧
+    mapE (selectedOf docAmbV2 ⟨none, none, none⟩).2.1 (channelForTrack docAmbV2) = .ok [some 0] := by decide
 
 /-- an object that references a pack without channels and no tracks -/
 def docEmptyPack : Doc := { docV2 with
@@ -278,12 +398,83 @@ def docEmptyPack : Doc := { docV2 with
   packs := [{ type := .objects, channels := [] }]
   channels := [], trackUIDs := [] }
 
-/-- why `noEmptyPacks` is a hypothesis: the code rejects this object ("Conflicting": an empty pack is never
+/-- why the uniqueness theorem is stated about `effProblem` (channel-less allocation packs removed): the code rejects this object ("Conflicting": an empty pack is never
 allocated) although, read literally, the `allocate_packs` requirements are met by allocating the empty pack once -/
 theorem empty_pack_rejected_though_spec_valid :
-    selectItems docEmptyPack none [] = .error (.adm .conflicting) ∧
+    outcome (selectItems docEmptyPack none []) = .adm .conflicting ∧
     PackAlloc.Valid (allocProblem docEmptyPack [⟨0, false, [], []⟩] (some [0]) [] [] 0) [⟨⟨0, 0, []⟩, []⟩] := by
   decide
+
+/-- non-vacuity of `empty_pack_outcome(_regular)`: `docEmptyPack` is validated, its one allocation pack (root 0) has
+no channels, the object of its state references pack 0, and the (empty) track list passes validation -/
+example : docEmptyPack.wellScoped = true ∧ validateStructure docEmptyPack = .ok () ∧
+    (match patterns docEmptyPack with
+     | .ok pats => pats.all (fun pat => pat.root != 0 || pat.channels.isEmpty) && pats.length == 1
+     | .error _ => false) = true ∧
+    (selectedOf docEmptyPack stV1).1 = some [0] ∧
+    forE (selectedOf docEmptyPack stV1).2.1 (validateSelectedTrack docEmptyPack) = .ok () ∧
+    mapE (selectedOf docEmptyPack stV1).2.1 (channelForTrack docEmptyPack) = .ok [] ∧
+    (docEmptyPack.pack 0).type ≠ .matrix ∧ packChannels docEmptyPack 0 = [] := by decide
+
+/-- a channel-less pack that nothing references does not disturb item selection (CHNA-only and object mode) -/
+example : selectItems { docV2 with packs := [{ type := .objects, channels := [0] }, { type := .objects }] } none []
+    = .ok 1 := by decide
+example : selectItems { docAmbV2 with packs := [{ type := .directSpeakers, channels := [0] }, { type := .directSpeakers }] } none []
+    = .ok 1 := by decide
+/-- referenced next to a real pack: still Conflicting (`empty_pack_outcome`) -/
+example : outcome (selectItems { docV2 with objects := [{ packs := [0, 1], tracks := [some 0] }], packs := [{ type := .objects, channels := [0] }, { type := .objects }] } none [])
+    = .adm .conflicting := by decide
+
+/-! ### structured diagnostics (`Msg`): what each message reads -/
+
+/-- `_validate_pack_channel_types`: `apf.id`, `apf.type.name`, `acf.id`, `acf.type.name` -/
+example : selectItems { docV1 with channels := [{ type := .directSpeakers, blocks := [objBlock] }] } none []
+    = .error (.adm .packchtype [.id .apf 0, .tname .apf 0, .id .acf 0, .tname .acf 0]) := by decide
+/-- `raise_error`: context `audioObject AO`, reasons "references to audioTrackUIDs but not to audioPackFormats" and
+"audioPackFormat {apf.id} referenced from audioTrackUID {atu.id} is not referenced from audioObject" -/
+example : selectItems { docV2 with objects := [{ packs := [], tracks := [some 0] }] } none []
+    = .error (.adm .conflicting [.id .ao 0, .reason .tracksNoPacks, .reason .trackPackNotInObject, .id .apf 0, .id .atu 0]) := by
+  decide
+/-- CHNA-only: context "CHNA", no reason applies -/
+example : selectItems docAmbV2 none [] = .error (.adm .ambiguous [.chna]) := by decide
+/-- `diamond_exception` (short variant: node and common parent) and `loop_exception` (the loop path) -/
+example : selectItems { docV1 with packs := [{ type := .objects, channels := [0, 0] }] } none []
+    = .error (.adm .diamond [.id .acf 0, .id .apf 0]) := by decide
+example : selectItems { docV1 with packs := [{ type := .objects, channels := [0], packs := [0] }] } none []
+    = .error (.adm .packloop [.id .apf 0, .id .apf 0]) := by decide
+/-- the long variant of `diamond_exception`: channel 0 below pack 0 directly and through sub-pack 1 -/
+example : selectItems { docV1 with packs := [{ type := .objects, channels := [0], packs := [1] }, { type := .objects, channels := [0] }] } none []
+    = .error (.adm .diamond [.id .acf 0, .id .apf 0, .id .apf 0, .id .apf 1, .id .acf 0, .id .apf 0, .id .acf 0]) := by decide
+
+/-! ### parameter merging: rtime/duration, nfcRefDist, normalization, absoluteDistance -/
+
+/-- two-channel HOA document -/
+def docHoa2 : Doc := { docHoa with
+  objects := [{ packs := [0], tracks := [some 0, some 1] }]
+  packs := [{ type := .hoa, channels := [0, 1] }]
+  channels := [{ type := .hoa, blocks := [hoaBlock 0 0] }, { type := .hoa, blocks := [hoaBlock 1 0] }]
+  trackUIDs := [{ trackIndex := some 1, pack := some 0, channel := some 0 }, { trackIndex := some 2, pack := some 0, channel := some 1 }] }
+
+example : selectItems docHoa2 none [] = .ok 1 := by decide
+/-- rtime/duration set in one channel only: `get_single_param(..., "rtime", ...)` -/
+example : selectItems { docHoa2 with channels := [{ type := .hoa, blocks := [{ hoaBlock 0 0 with rtime := some 0, duration := some 1 }] }, { type := .hoa, blocks := [hoaBlock 1 0] }] } none []
+    = .error (.adm (.paramshare .rtime) [.pname .rtime, .id .acf 0, .id .acf 1]) := by decide
+/-- rtime without duration: the element validator -/
+example : outcome (selectItems { docHoa2 with channels := [{ type := .hoa, blocks := [{ hoaBlock 0 0 with rtime := some 0 }] }, { type := .hoa, blocks := [hoaBlock 1 0] }] } none [])
+    = .adm .blocktime := by decide
+/-- nfcRefDist 0.0 (token 0) is the same as unset; another value is not -/
+example : selectItems { docHoa2 with channels := [{ type := .hoa, blocks := [{ hoaBlock 0 0 with nfc := some 0 }] }, { type := .hoa, blocks := [hoaBlock 1 0] }] } none []
+    = .ok 1 := by decide
+example : outcome (selectItems { docHoa2 with channels := [{ type := .hoa, blocks := [{ hoaBlock 0 0 with nfc := some 1 }] }, { type := .hoa, blocks := [hoaBlock 1 0] }] } none [])
+    = .adm (.paramshare .nfcRefDist) := by decide
+/-- normalization of the pack against that of a block: `get_path_param`'s message reads `path[0].id`, `path[-1].id` -/
+example : selectItems { docHoa2 with packs := [{ type := .hoa, channels := [0, 1], norm := some 1 }], channels := [{ type := .hoa, blocks := [{ hoaBlock 0 0 with norm := some 2 }] }, { type := .hoa, blocks := [hoaBlock 1 0] }] } none []
+    = .error (.adm (.parampath .normalization) [.pname .normalization, .id .apf 0, .block 0 0]) := by decide
+/-- absoluteDistance along a pack path (`_get_extra_data`, after validation and allocation) -/
+example : selectItems { docV2 with packs := [{ type := .objects, packs := [1], absDist := some 0 }, { type := .objects, channels := [0], absDist := some 1 }] } none []
+    = .error (.adm (.parampath .absoluteDistance) [.pname .absoluteDistance, .id .apf 0, .id .apf 1]) := by decide
+example : selectItems { docV2 with packs := [{ type := .objects, packs := [1], absDist := some 1 }, { type := .objects, channels := [0], absDist := some 1 }] } none []
+    = .ok 1 := by decide
 
 /-! ### Matrix documents -/
 
@@ -308,68 +499,72 @@ example : (patterns docDirect).map (·.length) = .ok 4 := by decide
 example : docDirect.wellScoped = true := by decide
 /-- direct use: the allocator's third pack; two DirectSpeakers items -/
 example : selectItems docDirect none [] = .ok 2 := by decide
-example : selectItems { docDirect with objects := [{ packs := [], tracks := [some 0] }] } none []
-    = .error (.adm .conflicting) := by decide
+example : outcome (selectItems { docDirect with objects := [{ packs := [], tracks := [some 0] }] } none [])
+      = .adm .conflicting := by decide
 -- matrix fault classes
-example : selectItems { docDirect with packs := [{ type := .directSpeakers, channels := [0] }, { type := .directSpeakers, channels := [1, 2] },
-    { type := .matrix, channels := [3, 4] }] } none [] = .error (.adm .mxnoio) := by decide
-example : selectItems { docDirect with channels := [{ type := .directSpeakers, blocks := [dsBlock] }, { type := .directSpeakers, blocks := [dsBlock] },
+example : outcome (selectItems { docDirect with packs := [{ type := .directSpeakers, channels := [0] }, { type := .directSpeakers, channels := [1, 2] },
+    { type := .matrix, channels := [3, 4] }] } none [])
+      = .adm .mxnoio := by decide
+example : outcome (selectItems { docDirect with channels := [{ type := .directSpeakers, blocks := [dsBlock] }, { type := .directSpeakers, blocks := [dsBlock] },
     { type := .directSpeakers, blocks := [dsBlock] },
-    { type := .matrix, blocks := [mxBlock (some 1) [1]] }, { type := .matrix, blocks := [mxBlock (some 2) [0]] }] } none []
-      = .error (.adm .mxinputch) := by decide
-example : selectItems { docDirect with channels := [{ type := .directSpeakers, blocks := [dsBlock] }, { type := .directSpeakers, blocks := [dsBlock] },
+    { type := .matrix, blocks := [mxBlock (some 1) [1]] }, { type := .matrix, blocks := [mxBlock (some 2) [0]] }] } none [])
+      = .adm .mxinputch := by decide
+example : outcome (selectItems { docDirect with channels := [{ type := .directSpeakers, blocks := [dsBlock] }, { type := .directSpeakers, blocks := [dsBlock] },
     { type := .directSpeakers, blocks := [dsBlock] },
-    { type := .matrix, blocks := [mxBlock none [0]] }, { type := .matrix, blocks := [mxBlock (some 2) [0]] }] } none []
-      = .error (.adm .mxoutmissing) := by decide
-example : selectItems { docDirect with channels := [{ type := .directSpeakers, blocks := [dsBlock] }, { type := .directSpeakers, blocks := [dsBlock] },
+    { type := .matrix, blocks := [mxBlock none [0]] }, { type := .matrix, blocks := [mxBlock (some 2) [0]] }] } none [])
+      = .adm .mxoutmissing := by decide
+example : outcome (selectItems { docDirect with channels := [{ type := .directSpeakers, blocks := [dsBlock] }, { type := .directSpeakers, blocks := [dsBlock] },
     { type := .directSpeakers, blocks := [dsBlock] },
-    { type := .matrix, blocks := [] }, { type := .matrix, blocks := [mxBlock (some 2) [0]] }] } none []
-      = .error (.adm .mxchblocks) := by decide
+    { type := .matrix, blocks := [] }, { type := .matrix, blocks := [mxBlock (some 2) [0]] }] } none [])
+      = .adm .mxchblocks := by decide
+
+/-- a matrix block with rtime/duration: `_validate_matrix_channel` -/
+example : selectItems { docDirect with channels := [{ type := .directSpeakers, blocks := [dsBlock] }, { type := .directSpeakers, blocks := [dsBlock] }, { type := .directSpeakers, blocks := [dsBlock] }, { type := .matrix, blocks := [{ mxBlock (some 1) [0] with rtime := some 0, duration := some 1 }] }, { type := .matrix, blocks := [mxBlock (some 2) [0]] }] } none []
+    = .error (.adm .mxchtime [.block 3 0]) := by decide
 
 /-- former finding F2 (fixed in 76cae51): a matrix coefficient without inputChannelFormat is an ADM error from
 `ADM.validate()` (was ValueError) -/
 theorem coefficient_without_input_is_adm :
-    selectItems { docDirect with channels := [{ type := .directSpeakers, blocks := [dsBlock] }, { type := .directSpeakers, blocks := [dsBlock] },
+    outcome (selectItems { docDirect with channels := [{ type := .directSpeakers, blocks := [dsBlock] }, { type := .directSpeakers, blocks := [dsBlock] },
       { type := .directSpeakers, blocks := [dsBlock] },
       { type := .matrix, blocks := [{ outCh := some 1, coeffs := [{ input := none }] }] },
-      { type := .matrix, blocks := [mxBlock (some 2) [0]] }] } none []
-      = .error (.adm .coeffnoinput) := by decide
+      { type := .matrix, blocks := [mxBlock (some 2) [0]] }] } none [])
+      = .adm .coeffnoinput := by decide
 
 /-- former finding F3 (fixed in 592dfc9): a decode matrix pack (pack 0) declared BEFORE the Matrix pack it
 references as encode pack (pack 1), which has neither input nor output reference: ADM error (was the
 `assert False` of `matrix.type_of`) -/
 theorem encode_without_refs_is_adm :
-    selectItems { v2Allowed := true,
-                  packs := [{ type := .matrix, output := some 2, encodePacks := [1] }, { type := .matrix },
-                            { type := .directSpeakers }] } none []
-      = .error (.adm .mxnoio) := by decide
+    outcome (selectItems { v2Allowed := true, packs := [{ type := .matrix, output := some 2, encodePacks := [1] }, { type := .matrix }, { type := .directSpeakers }] } none [])
+      = .adm .mxencnoio := by decide
 
 /-! ### alternativeValueSets -/
 
 /-- object 0 owns AVS tokens 7 and 8; the programme references 7 -/
 def docAvs : Doc := { docV2 with
   programmes := [{ contents := [0], avs := [7] }]
-  objects := [{ packs := [0], tracks := [some 0], params := true, avs := [7, 8] }] }
+  objects := [{ packs := [0], tracks := [some 0], pgain := true, avs := [7, 8] }] }
 
 example : docAvs.avsOwned = true ∧ docAvs.wellScoped = true := by decide
 example : selectItems docAvs none [] = .ok 1 := by decide
-example : selectItems { docAvs with programmes := [{ contents := [0], avs := [9] }] } none []
-    = .error (.adm .avsnotin) := by decide
-example : selectItems { docAvs with programmes := [{ contents := [0], avs := [7, 7] }] } none []
-    = .error (.adm .avsdup) := by decide
-example : selectItems { docAvs with contents := [{ objects := [0], avs := [7] }] } none []
-    = .error (.adm .avsboth) := by decide
-example : selectItems { docAvs with contents := [{ objects := [0], avs := [8] }] } none []
-    = .error (.adm .avsmulti) := by decide
+example : outcome (selectItems { docAvs with programmes := [{ contents := [0], avs := [9] }] } none [])
+      = .adm .avsnotin := by decide
+example : outcome (selectItems { docAvs with programmes := [{ contents := [0], avs := [7, 7] }] } none [])
+      = .adm .avsdup := by decide
+example : outcome (selectItems { docAvs with contents := [{ objects := [0], avs := [7] }] } none [])
+      = .adm .avsboth := by decide
+example : outcome (selectItems { docAvs with contents := [{ objects := [0], avs := [8] }] } none [])
+      = .adm .avsmulti := by decide
 
 /-- why `avsOwned` is a hypothesis: an AVS shared by two objects (impossible in a parsed document) defeats the
 conflict check of `_validate_avs_references` (it files the reference under the first owner only) and the assert
 in `_get_alternativeValueSet` fails for the second owner -/
 theorem shared_avs_defeats_validation :
-    selectItems { docV2 with
+    outcome (selectItems { docV2 with
       programmes := [{ contents := [0], avs := [7, 8] }]
       contents := [{ objects := [0, 1] }]
-      objects := [{ packs := [0], tracks := [some 0], params := true, avs := [7] },
-                  { packs := [0], tracks := [some 0], params := true, avs := [7, 8] }] } none [] = .error (.internal .assert) := by decide
+      objects := [{ packs := [0], tracks := [some 0], pgain := true, avs := [7] },
+                  { packs := [0], tracks := [some 0], pgain := true, avs := [7, 8] }] } none [])
+      = .internal .assert := by decide
 
 end Earverif.Validate
